@@ -282,6 +282,7 @@ type WorldJSON struct {
 	Faults []kern.Fault      `json:"faults,omitempty"`
 	Dirs   []string          `json:"dirs,omitempty"`
 	Disk   map[string]string `json:"disk"`
+	Links  map[string]string `json:"symlinks,omitempty"`
 	Note   string            `json:"note,omitempty"`
 }
 
@@ -291,6 +292,12 @@ func (w *World) Materialise() *WorldJSON {
 		Faults: w.Faults, Disk: map[string]string{}, Note: w.Note}
 	for p, c := range w.Disk.Files {
 		j.Disk[p] = string(c)
+	}
+	if len(w.Disk.Links) > 0 {
+		j.Links = map[string]string{}
+		for p, t := range w.Disk.Links {
+			j.Links[p] = t
+		}
 	}
 	// directories that contain nothing (others are implied by the files)
 	for d := range w.Disk.Dirs {
@@ -329,6 +336,9 @@ func (w *World) Hash() uint64 {
 		h.Write([]byte{0})
 		h.Write(w.Disk.Files[p])
 		h.Write([]byte{1})
+	}
+	for _, p := range sortedKeys(w.Disk.Links) {
+		fmt.Fprintf(h, "L%s>%s|", p, w.Disk.Links[p])
 	}
 	fmt.Fprintf(h, "|%s|%d|%s|%q|%q|%+v|%q", w.Cwd, w.CPUs, w.API, w.Args, w.Files, w.Opts, w.Stdin)
 	for _, f := range w.Faults {
